@@ -1,5 +1,6 @@
 """C10 All views of a repeated field stay consistent with each other."""
 import collections
+import copy
 import datetime
 import decimal
 
@@ -11,7 +12,7 @@ CASES = {'quick': 3000, 'thorough': 60000}
 SMALL_BLOCKS = 4      # runner: every 4th case keeps its stores in 2..10-token blocks
 GATES = {
     'quick': {'kind:meta:popitem': 50, 'kind:rawmeta:setexisting': 10, 'kind:rawmeta:popitem': 10, 'cases_in_small_blocks': 50, 'evaluations': 12000, 'steps_changing_raw_list': 4500, 'ordered_view_pairs': 30, 'families_seen': 6,
-              'read_probes': 100000, 'refusals_matched': 1200, 'meta_mapping_steps': 500, 'attribution_steps': 600},
+              'read_probes': 100000, 'refusals_matched': 1200, 'meta_mapping_steps': 500, 'attribution_steps': 600, 'copied_view_edits': 100},
     'thorough': {'evaluations': 400000, 'ordered_view_pairs': 30, 'families_seen': 6},
 }
 RULE = ('case = one accepted generated document; every view of every repeated field is read first (so all incremental index tables '
@@ -332,6 +333,54 @@ def run_case(col, r, idx):
         if v:
             col.violation(f'{v[0]}:after:{op.kind}', f'after {op.desc}: {v[1]}', wit)
             return
+    # a deep copy of a view is a view of the copied list: edits through it show in it, and the original neither sees nor suffers them
+    if idx % 3 == 0:
+        fams = families(f)
+        path, m, raw_attr, views = r.choice(fams)
+        if views:
+            v = r.choice(list(views))
+            kind = views[v]
+            w = getattr(m, v)
+            read = (lambda x: [x[i] for i in range(len(x))]) if kind in ('rawmeta', 'meta') else list
+            texts = lambda xs: [common.pr(x) if isinstance(x, mbase.RawModel) else x for x in xs]
+            before_doc = common.pr(f)
+            orig = texts(read(w))
+            wit = {'text': text, 'log': log, 'view': f'{path}.{v}'}
+            col.ev()
+            col.count('copied_view_checks')
+            try:
+                c = copy.deepcopy(w)
+                got = texts(read(c))
+                if got != orig:
+                    col.violation(f'copied-view-differs:{v}', f'deepcopy({path}.{v}) reads {got!r:.120}, the view reads {orig!r:.120}', wit)
+                    return
+                steps = []
+                ref = list(orig)
+                for _ in range(r.randint(1, 3)):
+                    if ref and r.random() < 0.6:
+                        i = r.randrange(len(ref))
+                        del c[i]            # (the meta mappings take positions as well as keys)
+                        del ref[i]
+                        steps.append(f'del [{i}]')
+                    elif ref and kind not in ('rawmeta', 'meta'):
+                        x = c.pop()
+                        c.insert(0, x)
+                        ref.insert(0, ref.pop())
+                        steps.append('insert(0, pop())')
+                    else:
+                        continue
+                    col.count('copied_view_edits')
+                    got = texts(read(c))
+                    if got != ref:
+                        col.violation(f'copied-view-stale:{v}', f'deepcopy({path}.{v}) after {steps}: reads {got!r:.120}, a list given the same calls '
+                                      f'holds {ref!r:.120}', dict(wit, steps=steps))
+                        return
+                if texts(read(w)) != orig or common.pr(f) != before_doc:
+                    col.violation(f'copied-view-not-independent:{v}', f'edits through deepcopy({path}.{v}) ({steps}) changed the original', dict(wit, steps=steps))
+                    return
+            except Exception as e:
+                col.violation(f'copied-view-raised:{v}', f'deepcopy({path}.{v}) / edits through it raised {type(e).__name__}: {e}', wit)
+                return
     if idx % 397 == 0:
         col.sample({'text': text, 'ops': log})
 
